@@ -254,6 +254,41 @@ def path_screen(ctx, job, box):
                  label='terminal state after a byte session depends on where it was cut')
 
 
+def path_screen_chars(ctx, job, box):
+    """End to end on a Screen through the char Parser: a concrete text with decomposed and composed
+    characters, wide characters and sequences, cut at every character boundary."""
+    prog, L = G['prog'], G['L']
+    eng = Engine(prog, ctx)
+    box['eng'] = eng
+    data = job.params['data']
+    k = job.params['cut']
+    sA = Session(eng, L, cols=8, lines=3)
+    sB = Session(eng, L, cols=8, lines=3)
+    out = 'ok'
+    try:
+        sA.feed(Str.of(data))
+        sB.feed(Str.of(data[:k]))
+        sB.feed(Str.of(data[k:]))
+    except Panic as e:
+        out = 'panic: %s' % e
+
+    def scenario(model):
+        a = ({'cols': 8, 'lines': 3, 'steps': [['feed', data]]},
+             {'ok': out == 'ok', 'out': [snapshot(eng, L, sA.screen, model)] if out == 'ok' else []})
+        b = ({'cols': 8, 'lines': 3, 'steps': [['feed', data[:k]], ['feed', data[k:]]]},
+             {'ok': out == 'ok', 'out': [snapshot(eng, L, sB.screen, model)] if out == 'ok' else []})
+        return [a, b]
+
+    def describe(model):
+        return {'text': data.encode('unicode_escape').decode(), 'cut_at': k, 'outcome': out}
+    if out != 'ok':
+        return Check(False, scenario, describe, outcome='panic', label='character session panics: ' + out)
+    from .common import fields_same
+    return Check(fields_same(L, sA.screen, sB.screen), scenario, describe,
+                 label='terminal state after a character session depends on where it was cut')
+
+
+CHAR_SESSION = 'cafe\u0301 e\u0308\u0301\u00e9コ\x1b]2;o\u0302t\x07\x1b[1mA\u030a\r\nq'
 SESSION = 'aé\x1b[2;3Hコ\x1b]2;t\x07\x1b[1mZ\r\n\x9b7mq'.encode('utf-8')
 
 
@@ -299,6 +334,8 @@ def jobs(tier):
                       suffix=(), full=True, mode='8bit', prop=PROP))
     for k in range(0, len(SESSION) + 1):
         js.append(Job('session/cut%d' % k, path_screen, data=tuple(SESSION), cut=k, prop=PROP))
+    for k in range(0, len(CHAR_SESSION) + 1):
+        js.append(Job('charsession/cut%d' % k, path_screen_chars, data=CHAR_SESSION, cut=k, prop=PROP))
     return js
 
 
@@ -308,6 +345,7 @@ META = {
               '(thorough also every 3-way cut of 3), plus shaped prefixes (ESC [, CSI 1;, OSC 0;, ESC (, ESC) followed by '
               '2 symbolic characters cut at every position, both parser modes; byte input: 1..3 symbolic bytes at every '
               'cut and 4 bytes at cuts 1,2,3 (thorough: 1..4 at every cut, 3-way cuts of 3), UTF-8 and 8-bit mode; one '
-              'concrete %d-byte session on a 6x3 Screen cut at every byte offset' % len(SESSION),
+              'concrete %d-byte session on a 6x3 Screen cut at every byte offset, and one concrete %d-character session (decomposed/composed '
+              'characters, wide characters, OSC, SGR) cut at every character boundary' % (len(SESSION), len(CHAR_SESSION)),
     'outside': 'longer inputs that are not covered by induction over cuts from the states reached within the bound',
 }
